@@ -1,10 +1,10 @@
 #!/bin/bash
 # bin/reseed.sh <seeded-name> <prop>: re-apply stored seed to /repo and run the quick check
 name=$1; prop=$2
-cd /repo && git apply /verif/seeded/$name/patch.diff || exit 2
-cd /verif && bin/check $prop --tier quick > seeded/$name/check_with.txt 2>&1; rc=$?
-git -C /repo checkout -- .
-echo "$name check rc=$rc"; grep -m2 VIOLATION seeded/$name/check_with.txt; tail -5 seeded/$name/check_with.txt | grep -v VIOLATION
+cd ${SEED_REPO:-/repo} && git apply /verif/seeded/$name/patch.diff || exit 2
+cd ${SEED_VERIF:-/verif} && bin/check $prop --tier quick > /verif/seeded/$name/check_with.txt 2>&1; rc=$?
+git -C ${SEED_REPO:-/repo} checkout -- .
+echo "$name check rc=$rc"; grep -m2 VIOLATION /verif/seeded/$name/check_with.txt; tail -5 /verif/seeded/$name/check_with.txt | grep -v VIOLATION
 python3 - "$name" "$rc" <<'PY'
 import json,sys
 p=f"/verif/seeded/{sys.argv[1]}/result.json"
